@@ -348,3 +348,74 @@ func goShareFindings(p *Prog) (out []gFinding) {
 	}
 	return
 }
+
+// poolEscapes: memory handed to a sync.Pool that is also handed out: Put(x) where x is (a
+// slice of / a pointer to a local copy of) the contents of a struct field, while some function
+// of the module returns that same field without copying it. The caller of that function and the
+// next user of the pool then share one backing array.
+func poolEscapes(p *Prog) (out []gFinding) {
+	fieldOf := func(v ssa.Value) string {
+		for i := 0; i < 6; i++ {
+			v = stripConv(v)
+			switch x := v.(type) {
+			case *ssa.Slice:
+				v = x.X
+				continue
+			case *ssa.UnOp:
+				if x.Op == token.MUL {
+					if k := p.memKey(x.X); strings.HasPrefix(k, "f:") {
+						return k
+					}
+					if a, ok := x.X.(*ssa.Alloc); ok {
+						if sv := singleStoreValue(x); sv != nil {
+							v = sv
+							_ = a
+							continue
+						}
+					}
+				}
+			case *ssa.Alloc:
+				// &local : what was stored into the local
+				var sv ssa.Value
+				for _, r := range *x.Referrers() {
+					if st, ok := r.(*ssa.Store); ok && st.Addr == ssa.Value(x) {
+						sv = st.Val
+					}
+				}
+				if sv != nil {
+					v = sv
+					continue
+				}
+			}
+			return ""
+		}
+		return ""
+	}
+	n := map[*ssa.Function]int{}
+	for _, fn := range p.Funcs {
+		for _, ci := range p.callsIn(fn, "(*sync.Pool).Put") {
+			if len(ci.Common().Args) < 2 {
+				continue
+			}
+			key := fieldOf(ci.Common().Args[1])
+			if key == "" {
+				continue
+			}
+			n[fn]++
+			// does any function return that field uncopied?
+			where := ""
+			for _, g := range p.Funcs {
+				for _, r := range returnsOf(g) {
+					for i := range r.Results {
+						if fieldOf(retVal(r, i)) == key {
+							where = p.FName(g) + " at " + p.Pos(r.Pos())
+						}
+					}
+				}
+			}
+			out = append(out, gFinding{Key: fmt.Sprintf("%s pools %s#%d", p.FName(fn), key, n[fn]), Pos: p.Pos(ci.Pos()), OK: where == "",
+				Detail: fmt.Sprintf("the memory of %s is put into a sync.Pool here and is also returned uncopied by %s: the caller's result and the next user of the pool share one backing array, so a result is overwritten while it is still in use", key, where)})
+		}
+	}
+	return
+}
